@@ -226,10 +226,26 @@ func cmdCheck(args []string) {
 
 	claimed := mine[:0:0]
 	var unclaimedNames []string
+	// zero-annotation obligations are keyed by the text of their source line; when that line is edited the key
+	// changes although the obligation is the same undecided one. Such an obligation stays unclaimed as long as the
+	// function still has an unclaimed obligation of the same kind (and callee): an edit of a line must not turn an
+	// undecided obligation into an alarm.
+	coarse := map[string]string{}
+	coarseReason := map[*Obligation]string{}
+	for k, r := range uncl.Unclaimed {
+		if i := strings.Index(k, "@"); i >= 0 {
+			coarse[k[:i]] = r
+		}
+	}
 	for _, o := range mine {
 		if r, ok := uncl.Unclaimed[o.Key()]; ok {
 			unclaimedNames = append(unclaimedNames, o.Key()+": "+r)
 			continue
+		}
+		if i := strings.Index(o.Key(), "@"); i >= 0 {
+			if r, ok := coarse[o.Key()[:i]]; ok {
+				coarseReason[o] = r // decided after the run: counts if it discharges, stays unclaimed if it does not
+			}
 		}
 		claimed = append(claimed, o)
 		fnSet[o.Fn] = true
@@ -304,11 +320,23 @@ func cmdCheck(args []string) {
 		gp := groups[name]
 		nObl++
 		var bad *Obligation
+		onlyCoarse := true
 		for _, o := range gp.obls {
 			if o.Status != "discharged" {
-				bad = o
-				break
+				if bad == nil {
+					bad = o
+				}
+				if _, ok := coarseReason[o]; !ok {
+					onlyCoarse = false
+				}
 			}
+		}
+		if bad != nil && onlyCoarse {
+			// an undecided obligation of a function and kind that is already listed as unclaimed (its source line
+			// was edited): not claimed, not counted, not an alarm
+			nObl--
+			unclaimedNames = append(unclaimedNames, bad.Key()+": (same function and kind as an unclaimed obligation whose source line changed) "+coarseReason[bad])
+			continue
 		}
 		if bad == nil {
 			for _, o := range gp.obls {
